@@ -8,7 +8,8 @@
         v = that value (or []).
         Expected:  ok <=> IsJson(in) /\ Depth(in) <= L,  each pm.ok <=> IsJson(in) /\ Depth(in) <= d,
         v = Denote(in) (members in document order).  Either outcome is allowed for texts with an
-        unpaired surrogate escape or a number literal beyond the f64 range.
+        unpaired surrogate escape or a number literal beyond the f64 range; a leading byte order mark may be
+        ignored or rejected (section 8.1).  Repeated names in an object: all members, in order, compared.
    {"k":"ser", "v":tree, "ind":n, "out":[code points], "re":b}
         out = v.serialize() (ind = -1) or v.serialize_pretty(ind); re = Value::parse(out) == v.
         Expected:  IsJson(out), Denote(out) = v, re.
@@ -84,13 +85,8 @@ HasBigNum(d) == IF d.t = "num" THEN MayOverflow(NormNum(d.n))
                 ELSE IF d.t = "arr" \/ d.t = "obj" THEN \E k \in 1..Len(d.a) : HasBigNum(d.a[k])
                 ELSE FALSE
 
-\* RFC 8259 section 4: when the names within an object are not unique the behaviour of the receiver is
-\* unpredictable (all pairs, the last pair, ...).  Accept / reject is still decided by the grammar, but the
-\* VALUE of such a text is not compared (the code as it stands keeps every pair, in order).
-RECURSIVE HasDupKeys(_)
-HasDupKeys(d) == IF d.t = "obj" THEN (\E i, j \in 1..Len(d.k) : i < j /\ d.k[i] = d.k[j]) \/ (\E k \in 1..Len(d.a) : HasDupKeys(d.a[k]))
-                 ELSE IF d.t = "arr" THEN \E k \in 1..Len(d.a) : HasDupKeys(d.a[k])
-                 ELSE FALSE
+\* Objects with repeated names: the property says "object members in document order" - every member is kept,
+\* in order (Denote does), and the value is compared exactly.
 
 AcceptOk(p, got, d, either) == IF either THEN got => (p.ok /\ p.d <= d)
                                ELSE got <=> (p.ok /\ p.d <= d)
@@ -109,13 +105,12 @@ WhyDoc1(r) ==
   IN  IF ~AcceptOk(p, r.ok, r.L, either) THEN "parse: accept/reject"
       ELSE IF \E k \in 1..Len(r.pm) : ~AcceptOk(p, r.pm[k].ok, r.pm[k].d, either) THEN "parse_max_depth: accept/reject"
       ELSE IF ~r.same THEN "parse and parse_max_depth returned different values"
-      ELSE IF anyok /\ ~p.lone /\ ~HasDupKeys(p.v) /\ ~Same(p.v, r.v) THEN "value differs from the denotation"
+      ELSE IF anyok /\ ~p.lone /\ ~Same(p.v, r.v) THEN "value differs from the denotation"
       ELSE IF r.nx = "bad" THEN "number differs from f64::from_str of the literal"
       ELSE ""
 WhySer(r) ==
   LET p == Parse(r.out) IN
   IF ~p.ok THEN "serialiser output is not JSON"
-  ELSE IF HasDupKeys(p.v) THEN ""                                  \* duplicate names: value not compared (see above)
   ELSE IF p.lone \/ ~Same(p.v, r.v) THEN "serialiser output denotes a different value"
   ELSE IF ~r.re THEN "parse(serialised) differs from the value"
   ELSE ""
